@@ -390,7 +390,18 @@ func deepPred(pred func(ssa.Instruction) bool, depth int) func(ssa.Instruction) 
 		}
 		if cc, _, isGo := callCommon(ins); cc != nil && !isGo {
 			if sc := cc.StaticCallee(); sc != nil && isHelper(sc) {
-				return alwaysDoes(originOf(sc), pred, depth)
+				// inside the helper its parameters read as the arguments of this call
+				o := originOf(sc)
+				saved := dynEnv
+				ne := &venv{bind: map[*ssa.Parameter]ssa.Value{}, outer: dynEnv}
+				for j, par := range o.Params {
+					if j < len(cc.Args) {
+						ne.bind[par] = cc.Args[j]
+					}
+				}
+				dynEnv = ne
+				defer func() { dynEnv = saved }()
+				return alwaysDoes(o, pred, depth)
 			}
 		}
 		return false
@@ -720,10 +731,16 @@ func deepFuncs(fn *ssa.Function) []*ssa.Function {
 					add(originOf(sc), depth+1)
 				}
 			}
-			// a named helper handed over as a function value (c.Query(deleteExpired))
+			// a named helper handed over as a function value (c.Query(deleteExpired)) or as a method
+			// value (readChunk(chunk, e.writeChunk))
 			for _, op := range ins.Operands(nil) {
 				if g, ok := (*op).(*ssa.Function); ok && g.Parent() == nil && isHelper(g) {
 					add(originOf(g), depth+1)
+				}
+			}
+			if mc, ok := ins.(*ssa.MakeClosure); ok {
+				if m := boundTarget(mc.Fn.(*ssa.Function)); m != nil && isHelper(m) {
+					add(originOf(m), depth+1)
 				}
 			}
 		})
